@@ -7,6 +7,7 @@ for id in "${ids[@]}"; do
   d=seeded/$id
   [ -f $d/patch.diff ] || continue
   [ -f $d/OBSOLETE ] && { echo "$id obsolete: $(cat $d/OBSOLETE)"; continue; }
+  [ -f $d/NOT_DETECTED ] && echo "$id out of domain: $(cut -c1-100 $d/NOT_DETECTED)"
   prop=${id%%-*}
   checks="$prop"
   [ -f $d/also.txt ] && checks="$checks $(cat $d/also.txt)"
